@@ -382,7 +382,7 @@ fn spec_json(t: &Tensor) -> Value {
 /// Randomized driver (integer data, larger shapes, longer operation sequences than TLC enumerates).
 pub fn record_arith(seed: u64, tier: &str, trace: &mut Vec<Value>, rep: &mut Report) {
     let mut rng = Rng::new(seed ^ 0xC15);
-    let runs = if tier == "thorough" { 300 } else { 50 };
+    let runs = if tier == "thorough" { 600 } else { 150 };
     for run in 0..runs {
         let rank = rng.range(1, 4) as usize;
         let dims: Vec<usize> = (0..rank).map(|_| rng.range(1, 4) as usize).collect();
